@@ -14,10 +14,11 @@ PY = "/venv/bin/python"
 NA = {
     "C01": "statistical convergence of estimators over all histories; no sound static bound on sampled values (see DESIGN.md section 3, C01)",
     "C02": "numerical identity (permanent ratios) over a matrix family; no structural necessary condition that is not a frozen idiom (DESIGN.md section 3, C02)",
-    "C10": "functional correctness of a numeric state machine (wire-fencing weights) over all sequences; only decidable by executing it, which is a different technique family (DESIGN.md section 3, C10)",
 }
 
 TEXT = {
+    "C10": ("exact finite abstraction of the wire-fencing scan (order parameters touched only through comparisons with the two bounds: 5 regions), abstract interpretation of the loop body over bool / region / affine-integer values giving the implementation's transducer, product with the transducer written from the property text explored to a fixpoint (equal emissions as affine forms at every reachable product state; witness word on a mismatch), shape of the proportional selection law and of the segment layout, weight-vector plumbing of calc_cv_vector / compute_weight, sibling agreement of the (left, right) pair across the three call chains and of the move/interface index shift",
+            "does not decide the numeric value of the high-acceptance swap ratio, nor that left < right at run time (assumed; enforced for wf ensembles by check_config)"),
     "C03": ("lock/ownership discipline on AST+CFG: who-may-write busy flags, checked acquire/release by dominance, acquire-on-all-paths before a job is recorded, zero-swap partner only when idle (case split over contradictory disjuncts), engine claim under a free test on the same slot, one claim call per job, private worker directory provenance, path-number representation (int vs str) inference, whole busy set consulted, no stale loop variables",
             "does not decide non-zero weight of the picked path nor the global interleaving invariant as such"),
     "C04": ("accumulator typestate: who-may-write ['frac'], accumulate only under the idle guard after the new path is inserted and before the commit (effect analysis of write_toml), archive exactly once under status ACC with removal from the live table, restart key-set agreement, a restart keeps the persisted data file (configuration provenance)",
@@ -84,7 +85,7 @@ def main():
                          "not decided in DESIGN.md. A for-all-paths structural verdict is the right level here because "
                          "the property quantifies over inputs/schedules/crash points that tests only sample, while "
                          "these clauses are visible in the shape of the code."),
-                "design_ref": f"DESIGN.md section 3, {pid}",
+                "design_ref": (f"DESIGN.md section 10, {pid}" if pid in ("C02", "C10") else f"DESIGN.md section 3, {pid}"),
             },
             "level_note": ("Trusted base: CPython ast, the checker's own CFG/dominator/reaching-definition engine "
                            "(self-tested on every run by positive controls; thorough tier runs breaking and preserving "
